@@ -43,6 +43,10 @@ def gen_cases(tier, seed):
         yield {"kind": "step", "n": n, "values": vals, "minimize": rng.random() < 0.5, "k": rng.randint(1, n), "form": rng.choice(["list", "iterator", "list"]), "multi": rng.random() < 0.25, "evaluated": rng.random() < 0.6, "other_direction_first": rng.random() < 0.2, "seed": rng.randrange(10**6)}
     for i in range(PLAN[tier]["runs"]):
         yield {"kind": "run", "pop": rng.choice([3, 4, 5, 8, 10, 20]), "gens": rng.randint(5, 40 if tier == "thorough" else 15), "minimize": rng.random() < 0.5, "weights": [rng.choice([1, 2, 5, 10]), rng.choice([1, 5, 50, 90])], "repr": rng.choice(["tree", "ge"]), "inner": rng.choice(["mut", "cx+mut", "novelty"]), "objectives": 1, "elitism_at": 0, "seed": rng.randrange(10**6)}
+    for i in range(max(6, PLAN[tier]["runs"] // 6)):
+        # weights that change while the search runs (parameterless.RandomizeParallelStep draws four new ones after every
+        # generation): the elitism slice is what the weights IN FORCE give it
+        yield {"kind": "run", "pop": rng.choice([10, 20, 30]), "gens": rng.randint(10, 40 if tier == "thorough" else 20), "minimize": rng.random() < 0.5, "weights": [rng.choice([1000, 10**6]), 1000, rng.choice([1000, 10**5]), 10**6], "repr": rng.choice(["tree", "ge"]), "inner": "mut", "objectives": 1, "elitism_at": 0, "randomised": True, "seed": rng.randrange(10**6)}
     for i in range(PLAN[tier]["runs"] // 2):
         # the elitism slice anywhere among its siblings, multi-objective problems, lexicase among the siblings
         nobj = rng.choice([1, 2, 3])
@@ -203,7 +207,20 @@ def run_run(case, rec):
         rec.count("runs_with_elitism_after_a_sibling")
     if "lexicase" in case["inner"]:
         rec.count("runs_with_lexicase_sibling")
-    step = ParallelStep(siblings, weights=weights)
+    in_force: dict = {}
+    if case.get("randomised"):
+        from geneticengine.algorithms.gp.parameterless import RandomizeParallelStep
+
+        class Recording(RandomizeParallelStep):
+            def iterate(self, problem, evaluator, representation, random, population, target_size, generation):
+                in_force[generation] = (list(self.weights), target_size)
+                return super().iterate(problem, evaluator, representation, random, population, target_size, generation)
+
+        siblings = [SlotRecordingElitism(), NoveltyStep(), inner["mut"](), inner["cx+mut"]()]
+        step = Recording(siblings, weights=list(case["weights"]))
+        rec.count("runs_with_weights_changing_during_the_search")
+    else:
+        step = ParallelStep(siblings, weights=weights)
     gp = GeneticProgramming(prob, evo.check_count_budget(case["gens"]), rep, src, tracker=tracker, population_size=case["pop"], step=step)
     wit = {k: case.get(k) for k in ("pop", "gens", "minimize", "weights", "repr", "inner", "third", "objectives", "elitism_at")}
     if mins is not None:
@@ -222,6 +239,14 @@ def run_run(case, rec):
         good = (-v if case["minimize"] else v) if mins is None else sum((-x if m else x) for x, m in zip(v, mins))
         best[gen] = good if gen not in best else max(best[gen], good)
     slot_of = {gen: k for gen, k in slots}
+    for gen, (ws, n) in sorted(in_force.items()):
+        # "the size of each slice is given by the proportion of its weight": an elitism share clearly above one individual
+        # (1.5 and more, whatever the rounding) is at least one slot
+        if sum(ws) > 0 and ws[0] * n / sum(ws) >= 1.5:
+            rec.count("generations_whose_weights_in_force_give_elitism_a_slot")
+            if slot_of.get(gen, 0) < 1:
+                rec.violation("elitism:no-slot-although-the-weights-in-force-give-it-one", dict(wit, generation=gen, weights_in_force=ws, target=n, share=round(ws[0] * n / sum(ws), 2)))
+                break
     for gen in sorted(best):
         if gen == 0 or gen - 1 not in best:
             continue
